@@ -408,7 +408,8 @@ def match_known(known, prop, signature):
 # --------------------------------------------------------------------------- evidence
 
 def write_evidence(prop, tier, seed, level, coverage, wall, violations, assumptions):
-    d = os.path.join(VERIF, "evidence")
+    # Xnn = specification coverage beyond the 61 listed properties (not in MANIFEST.json)
+    d = os.path.join(VERIF, "evidence-extra" if prop.startswith("X") else "evidence")
     if os.path.realpath(REPO) != "/repo":
         # a run against a scratch worktree (mutation / seeded change) must not overwrite the evidence
         # of /repo itself
